@@ -260,10 +260,12 @@ def gen_refit(rng, nmax):
     n = rng.randint(5, nmax)
     adapter = rng.choice(["change", "saving", "local", "cusum", "l2saving"])
     k = {"change": 3, "saving": 2, "local": 4, "cusum": 3, "l2saving": 2}[adapter]
-    scen = rng.choice(["inplace", "inplace", "fresh", "shared"] if adapter in ("change", "saving", "local") else ["inplace", "fresh"])
+    scen = rng.choice(["inplace", "inplace", "fresh", "shared", "nested", "nested"] if adapter in ("change", "saving", "local") else ["inplace", "fresh"])
     mk = lambda: [[rng.randint(-3, 3) for _ in range(p)] for _ in range(n)]  # noqa: E731
     return {"adapter": adapter, "scenario": scen, "n": n, "p": p, "X1": mk(), "X2": mk(), "weight": rng.choice([1, 2]),
-            "param": rng.choice([-2, 1, 3]), "cuts": gen_cuts(rng, n, k, 1, rng.randint(2, 6)), "eval_between": rng.random() < 0.5}
+            "param": rng.choice([-2, 1, 3]), "cuts": gen_cuts(rng, n, k, 1, rng.randint(2, 6)), "eval_between": rng.random() < 0.5,
+            # nested scenario: the wrapped cost is re-configured through the adapter (set_params(<cost>__weight=..., <cost>__param=...))
+            "weight2": rng.choice([2, 3, 5]), "param2": rng.choice([-1, 2, 4]), "inner0": rng.choice([None, 1])}
 
 
 def impl_refit(case):
@@ -276,11 +278,20 @@ def impl_refit(case):
         return {"outcome": "skip:no-cuts"}
     try:
         w, prm, ad = case["weight"], case["param"], case["adapter"]
-        cost = MultisetCost(param=prm if ad == "saving" else None, weight=w)
+        nested = case["scenario"] == "nested"
+        cost = MultisetCost(param=prm if ad == "saving" else (case.get("inner0") if nested else None), weight=w)
         sc = {"change": lambda: ChangeScore(cost), "saving": lambda: Saving(cost), "local": lambda: LocalAnomalyScore(cost),
               "cusum": CUSUM, "l2saving": L2Saving}[ad]()
         X = np.array(case["X1"], dtype=float)
         cuts = np.array(case["cuts"])
+        if nested:
+            if case["eval_between"]:
+                sc.fit(X)
+                sc.evaluate(cuts)
+            key = "baseline_cost" if ad == "saving" else "cost"
+            sc.set_params(**{key + "__weight": case["weight2"], key + "__param": case["param2"]})
+            sc.fit(X)
+            return {"outcome": "ok", "final": "X1", "vals": sc.evaluate(cuts).tolist()}
         sc.fit(X)
         if case["eval_between"]:
             sc.evaluate(cuts)
@@ -306,7 +317,10 @@ def oracle_refit(case, r):
         return f"raised {r['outcome']} {r.get('msg', '')}"
     X = np.array(case[r["final"]], dtype=float)
     w, prm, ad = case["weight"], case["param"], case["adapter"]
-    V = lambda rows, par=None: MultisetCost.value(rows, w, par)  # noqa: E731
+    inner = None
+    if case["scenario"] == "nested":  # the definitions with the cost as re-configured through the adapter
+        w, prm, inner = case["weight2"], case["param2"], case["param2"]
+    V = lambda rows, par=inner: MultisetCost.value(rows, w, par)  # noqa: E731
     L2 = lambda rows: ((rows - rows.mean(axis=0)) ** 2).sum(axis=0)  # noqa: E731
     for c, got in zip(case["cuts"], r["vals"]):
         got = np.array(got)
@@ -315,7 +329,7 @@ def oracle_refit(case, r):
             want = V(X[s:e]) - V(X[s:k]) - V(X[k:e])
         elif ad == "saving":
             s, e = c
-            want = V(X[s:e], prm) - V(X[s:e])
+            want = V(X[s:e], prm) - V(X[s:e], None)
         elif ad == "local":
             s, a, b, e = c
             want = V(X[s:e]) - V(X[a:b]) - V(np.concatenate((X[s:a], X[b:e])))
@@ -327,7 +341,8 @@ def oracle_refit(case, r):
             want = (X[s:e] ** 2).sum(axis=0) - L2(X[s:e])
         if not np.allclose(got, want, rtol=1e-9, atol=1e-9):
             how = {"inplace": "re-fitted on the same array object after its contents were replaced in place",
-                   "fresh": "re-fitted on a new array", "shared": "re-fitted after another adapter sharing its cost object was fitted to other data"}
+                   "fresh": "re-fitted on a new array", "shared": "re-fitted after another adapter sharing its cost object was fitted to other data",
+                   "nested": f"fitted after set_params(<cost>__weight={case.get('weight2')}, <cost>__param={case.get('param2')})"}
             return (f"{ad} score at cut {c} is {got.tolist()} after the scorer was {how[case['scenario']]}; the defining cost difference on "
                     f"the data it was last fitted to is {np.asarray(want).tolist()}")
     return None
